@@ -531,7 +531,9 @@ pub fn case_line(td: &TableDefinition, line: &str, lo: &LineOracle) -> String {
     let any_real_convert = td.columns.iter().any(|c| matches!(c.parsing, ColumnParsing::Json(_)) && c.options.convert && c.column_type == ValueType::Float);
     if any_real_convert { if let Some(j) = &lo.json { collect_strings(j, &mut texts); } }
     s.push_str(" (f64");
+    let ship = crate::util::ship_facts(line);
     for t in &texts {
+        if !ship { break; }
         match f64::from_str(t) { Ok(f) => s.push_str(&format!(" ({} {})", hexs(t), f.to_bits())), Err(_) => s.push_str(&format!(" ({} none)", hexs(t))) }
     }
     s.push(')');
